@@ -1,7 +1,7 @@
 (** Props/C09.v — C09: every one-hot event encoding is a bijection onto its
     class range.  Only statements, [exact], and [Print Assumptions]. *)
 From Coq Require Import ZArith List Bool.
-From NS Require Import Gen.G09 Model.OneHot Proofs.OneHot Model.ChordOneHot Proofs.ChordOneHot Gen.Tr Proofs.TrEquiv09.
+From NS Require Import Gen.G09 Model.OneHot Proofs.OneHot Model.ChordOneHot Proofs.ChordOneHot Gen.Tr Proofs.TrEquiv09 Proofs.TrCode09.
 Import ListNotations.
 Local Open Scope Z_scope.
 
@@ -198,3 +198,28 @@ Proof.
   split; [cbn; intuition reflexivity | reflexivity].
 Qed.
 Print Assumptions C09_nonvacuous.
+
+(** The same clauses stated DIRECTLY on the code as it reads now (Gen/Tr.v, re-translated from the source on every
+    run): no hand-written model occurs in these statements. *)
+Theorem C09_code_melody_decode_encode : forall mn mx nc i,
+  tr_melody_init mn mx = Some tt -> tr_melody_num_classes mx mn = Some nc -> 0 <= i < nc ->
+  exists e, tr_melody_decode_event mn i = Some e /\ tr_melody_encode_event mx mn e = Some i.
+Proof. exact code_melody_decode_encode. Qed.
+Print Assumptions C09_code_melody_decode_encode.
+
+Theorem C09_code_melody_encode_decode : forall mn mx nc e c,
+  tr_melody_init mn mx = Some tt -> tr_melody_num_classes mx mn = Some nc ->
+  tr_melody_encode_event mx mn e = Some c -> 0 <= c < nc /\ tr_melody_decode_event mn c = Some e.
+Proof. exact code_melody_encode_decode. Qed.
+Print Assumptions C09_code_melody_encode_decode.
+
+Theorem C09_code_velocity_bins : forall nb v, 1 <= nb <= 127 -> 1 <= v <= 127 ->
+  exists b v0, tr_velocity_to_bin v nb = Some b /\ 1 <= b <= nb /\
+               tr_velocity_bin_to_velocity b nb = Some v0 /\ v0 <= v /\ tr_velocity_to_bin v0 nb = Some b.
+Proof. exact code_velocity_bins. Qed.
+Print Assumptions C09_code_velocity_bins.
+
+Theorem C09_code_velocity_monotone : forall nb v1 v2 b1 b2, 1 <= nb <= 127 -> v1 <= v2 ->
+  tr_velocity_to_bin v1 nb = Some b1 -> tr_velocity_to_bin v2 nb = Some b2 -> b1 <= b2.
+Proof. exact code_velocity_monotone. Qed.
+Print Assumptions C09_code_velocity_monotone.
